@@ -112,6 +112,14 @@ impl Metrics {
     }
 }
 
+#[cfg(trusttunnel_verif)]
+impl Metrics {
+    /// The text `GET /metrics` answers with
+    pub(crate) fn verif_collect(&self) -> String {
+        String::from_utf8_lossy(&self.collect().1).to_string()
+    }
+}
+
 impl ClientSessionsCounter {
     fn new(metrics: Arc<Metrics>, protocol: Protocol) -> Self {
         metrics
